@@ -181,6 +181,17 @@ func cmdCheck(args []string) int {
 		}
 		keys = append(keys, p)
 	}
+	{
+		seenKey := map[string]bool{}
+		var uniq []string
+		for _, k := range keys {
+			if !seenKey[k] {
+				seenKey[k] = true
+				uniq = append(uniq, k)
+			}
+		}
+		keys = uniq
+	}
 	var inlined []string
 	for _, k := range keys {
 		if f := e.funcs[k]; f != nil && f.Parent() != nil && !explicit[k] {
